@@ -65,7 +65,9 @@ def all_cases(shape_names, limit_per_shape=None, rnd=None):
 
 
 POLICIES = [(1, 0.2, 1.0), (3, 0.5, 0.05), (6, 0.8, 1.0), (15, 0.5, 20.0), (60, 0.3, 1.0), (400, 0.5, 0.05),
-            (4, 0.95, 0.05), (4, 0.05, 20.0), (2, 0.5, 1.0), (30, 0.9, 1.0)]
+            (4, 0.95, 0.05), (4, 0.05, 20.0), (2, 0.5, 1.0), (30, 0.9, 1.0),
+            # negative burst: internal rx hops are eager, the randomness goes to exits / callbacks / passes
+            (-2, 0.5, 1.0), (-6, 0.3, 1.0), (-12, 0.7, 1.0), (-3, 0.15, 1.0)]
 
 
 def run_real(cases, schedules, scratch, base_seed):
@@ -75,7 +77,7 @@ def run_real(cases, schedules, scratch, base_seed):
     for ci, (sid, sn, oa) in enumerate(cases):
         for k in range(schedules):
             bm, eb, cw = POLICIES[(k + ci) % len(POLICIES)]
-            pol = ctl.RandomPolicy(base_seed * 1000003 + ci * 101 + k, burst_max=bm, env_bias=eb, ctrl_weight=cw)
+            pol = ctl.RandomPolicy(base_seed * 1000003 + ci * 101 + k, burst_max=abs(bm), env_bias=eb, ctrl_weight=cw, eager_internal=bm < 0)
             h = ctl.run_case(sn, oa, scratch, pol)
             h.sid, h.case_index, h.sched = sid, ci, (base_seed * 1000003 + ci * 101 + k, bm, eb, cw)
             runs.append(h)
